@@ -376,6 +376,10 @@ impl<SE: extensions::ShellExtensions> ShellState for Shell<SE> {
 
     /// Returns a mutable reference to the shell environment.
     pub fn env_mut(&mut self) -> &mut ShellEnvironment {
+        // Keep the environment's notion of `allexport` in step with the option, so that
+        // every writer (read, for, printf -v, arithmetic, getopts, ...) honors it.
+        self.env
+            .set_export_variables_on_modification(self.options.export_variables_on_modification);
         &mut self.env
     }
 
